@@ -27,7 +27,14 @@ where
     where
         I: IntoIterator<Item = Pixel<Self::Color>>,
     {
+        let bounding_box = self.bounding_box();
+
         for pixel in pixels {
+            // Pixels outside the display are discarded
+            if !bounding_box.contains(pixel.0) {
+                continue;
+            }
+
             let x = pixel.0.x as u16;
             let y = pixel.0.y as u16;
 
@@ -44,7 +51,13 @@ where
     {
         use crate::batch::DrawBatch;
 
-        self.draw_batch(item)
+        // Pixels outside the display are discarded
+        let bounding_box = self.bounding_box();
+        let pixels = item
+            .into_iter()
+            .filter(move |pixel| bounding_box.contains(pixel.0));
+
+        self.draw_batch(pixels)
     }
 
     fn fill_contiguous<I>(&mut self, area: &Rectangle, colors: I) -> Result<(), Self::Error>
